@@ -47,22 +47,33 @@ func vC09FindOverload(n int) {
 		ops[k] = operand{typ: typ, expr: expr}
 	}
 	got := t.findOverload(ast.BIN_MULT, ops[0], ops[1])
-	// reference: the first table entry whose parameter types equal the operand types and whose
-	// Referenz parameters meet assignable operands
-	want := -1
-	for i := n - 1; i >= 0; i-- {
+	// which entries fit: parameter types equal the operand types and Referenz parameters meet
+	// assignable operands
+	fitsAt := make([]bool, n)
+	any := false
+	for i := 0; i < n; i++ {
 		fits := true
 		for k := 0; k < 2; k++ {
 			pt := table[i].Parameters[k].Type
 			fits = rt.And(fits, rt.And(ddptypes.Equal(pt.Type, ops[k].typ), rt.Or(!pt.IsReference, assignable[k])))
 		}
-		want = rt.Ite(fits, i, want)
+		fitsAt[i] = fits
+		any = rt.Or(any, fits)
 	}
-	rt.Assert((want == -1) == (got == nil), "an overload is used exactly when one fits the operand types (and Referenz parameters get assignable operands); otherwise the built-in meaning applies")
-	if got == nil || want == -1 {
+	rt.Assert(any == (got != nil), "an overload is used exactly when one fits the operand types (and Referenz parameters get assignable operands); otherwise the built-in meaning applies")
+	if got == nil {
 		return
 	}
-	rt.Assert(got.Decl == table[want], "the first fitting overload of the table is the one used")
+	chosen := -1
+	for i := 0; i < n; i++ {
+		if got.Decl == table[i] {
+			chosen = i
+		}
+	}
+	rt.Assert(chosen >= 0 && fitsAt[chosen], "the overload used is one whose parameter types equal the operand types")
+	if chosen < 0 {
+		return
+	}
 	for k := 0; k < 2; k++ {
 		arg := got.Args[got.Decl.Parameters[k].Name.Literal]
 		rt.Assert(arg == ops[k].expr, "operands are bound to the parameters by name")
